@@ -104,6 +104,8 @@ CDC = dict(name='Couples/Devs Serialize/Deserialize (map CSR, names, lines, touc
                 'empty names, large counters; developer statistics with the unmatched author, empty language names, 4 tick sizes')
 TS = dict(name='toposort.Graph', probe='k15', fam=['ts'], quick=5000, thorough=150000, case_start=r'^new$',
           nontrivial=nt_has('edge', 'sort'), rule='random builds with removals and re-indexing, then Toposort')
+DEP = dict(name='Pipeline.DeployItem', probe='k10d', fam=['ts'], quick=6000, thorough=200000, nontrivial=nt_any,
+           rule='synthetic registry of 12 plumbing types over 6 entities (gated and plain providers in every registration order), 1-3 leaves deployed in turn, features set before and by the leaves')
 RES = dict(name='Pipeline.Initialize(resolve)', probe='k10', fam=['ts'], quick=3000, thorough=60000, nontrivial=nt_any,
            rule='synthetic item sets (provides/requires over 3-6 entities, same names, cycles, duplicated providers)')
 IDG = dict(name='GeneratePeopleDict+Consume', probe='k16', fam=['idn'], quick=4000, thorough=100000, nontrivial=nt_any,
@@ -247,7 +249,7 @@ PROPS = {
     'C07': dict(corr=[MG, DAG]),
     'C08': dict(corr=[DAG, RBC, RBW, PFORK]),
     'C09': dict(corr=[RUN, HB, HBF, K09B, E01]),
-    'C10': dict(level='translation_validation', corr=[RES, E10, E10S]),
+    'C10': dict(level='translation_validation', corr=[RES, DEP, E10, E10S]),
     'C11': dict(corr=[LN, K11D, E11, E11W]),
     'C12': dict(corr=[LN, LNC, ONES, DC, RUN, E14]),
     'C13': dict(corr=[RN, RNH, RNHR]),
